@@ -254,6 +254,7 @@ type Exec struct {
 	lastNow     *smt.Term
 	panics      []*frame // frames currently running defers because of a panic
 	ghost       map[string]interface{}
+	baseGhost   map[string]interface{} // written by package initialisers; every path starts from it
 	threads     []*thread
 	cur         *thread
 	thrSeq      int
@@ -368,7 +369,10 @@ func (ex *Exec) RunPath(fn *ssa.Function, trail []uint64) (alts [][]uint64) {
 	ex.nowSeq = 0
 	ex.lastNow = nil
 	ex.panics = nil
-	ex.ghost = map[string]interface{}{}
+	ex.ghost = make(map[string]interface{}, len(ex.baseGhost))
+	for k, v := range ex.baseGhost {
+		ex.ghost[k] = v
+	}
 	ex.threads = nil
 	ex.cur = nil
 	ex.thrSeq = 0
@@ -1075,7 +1079,23 @@ func (ex *Exec) ensureInit(p *ssa.Package) {
 	ex.panics = nil
 	ex.initTarget = p
 	ex.initMode++
+	// ghost state (atomic.Value contents, Once flags, ...) written by an initialiser belongs to every
+	// later path of this worker, not only to the path that happened to trigger the initialiser
+	before := make(map[string]interface{}, len(ex.ghost))
+	for k, v := range ex.ghost {
+		before[k] = v
+	}
 	defer func() {
+		if ex.initMode == 1 {
+			if ex.baseGhost == nil {
+				ex.baseGhost = map[string]interface{}{}
+			}
+			for k, v := range ex.ghost {
+				if old, ok := before[k]; !ok || !ghostSame(old, v) {
+					ex.baseGhost[k] = v
+				}
+			}
+		}
 		ex.initMode--
 		ex.stack = saveStack
 		ex.initTarget = saveTarget
@@ -1118,4 +1138,13 @@ func (ex *Exec) info(fn *ssa.Function) *fnInfo {
 	}
 	ex.fnInfos[fn] = fi
 	return fi
+}
+
+func ghostSame(a, b interface{}) (same bool) {
+	defer func() {
+		if recover() != nil {
+			same = false
+		}
+	}()
+	return a == b
 }
